@@ -314,10 +314,96 @@ def const_arith_sites(fn):
     return out
 
 
+def counter_arith_sites(fn):
+    """Overflow checks on a loop counter discharged by the shape of the loop: `let mut i = C; while i < X { .. i - c ..; i += 1 }` —
+    the counter has one definition outside the loop (a constant C) and one inside (`i = i + 1`, in a block every trip passes);
+    every trip passes the guard `i < X` first.  Then `i + 1` cannot overflow (i < X <= usize::MAX) and `i - c` with a constant
+    c <= C cannot underflow (the counter never falls below C)."""
+    out = set()
+    try:
+        loops = fn.natural_loops()
+        defs = fn.defs()
+        backs = fn.back_edges()
+    except Exception:
+        return out
+
+    def cval(o):
+        if o.get("k") != "const":
+            return None
+        m = re.match(r"^(\d+)", str(o.get("val", o.get("s", ""))).replace("const ", ""))
+        return int(m.group(1)) if m else None
+
+    def copies_of(i, body):
+        res = {i}
+        for l, ds in defs.items():
+            if len(ds) == 1 and ds[0]["kind"] == "assign" and ds[0]["bb"] in body:
+                rv = ds[0]["stmt"]["rv"]
+                if rv["k"] == "use" and rv["op"].get("k") in ("copy", "move") and rv["op"]["p"]["l"] == i and not rv["op"]["p"]["pj"]:
+                    res.add(l)
+        return res
+    for h, body in loops.items():
+        srcs = [a for a, b in backs if b == h]
+        for i, ds in defs.items():
+            if i >= len(fn.locals) or fn.locals[i]["ty"] != "usize" or len(ds) != 2 or any(d["kind"] != "assign" or d["partial"] for d in ds):
+                continue
+            ins = [d for d in ds if d["bb"] in body]
+            outs = [d for d in ds if d["bb"] not in body]
+            if len(ins) != 1 or len(outs) != 1:
+                continue
+            rv0 = outs[0]["stmt"]["rv"]
+            c0 = cval(rv0["op"]) if rv0["k"] == "use" else None
+            if c0 is None:
+                continue
+            rv = ins[0]["stmt"]["rv"]
+            inc_bb = None
+            if rv["k"] == "use" and rv["op"].get("k") in ("copy", "move") and len(rv["op"]["p"]["pj"]) == 1 and rv["op"]["p"]["pj"][0].get("i") == 0:
+                d2 = fn.single_def(rv["op"]["p"]["l"])
+                if d2 and d2["kind"] == "assign" and d2["stmt"]["rv"]["k"] == "binop" and d2["stmt"]["rv"]["op"] == "AddWithOverflow":
+                    a, b = d2["stmt"]["rv"]["a"], d2["stmt"]["rv"]["b"]
+                    if a.get("k") in ("copy", "move") and a["p"]["l"] == i and not a["p"]["pj"] and cval(b) == 1:
+                        inc_bb = d2["bb"]
+            if inc_bb is None or not all(fn.dominates(ins[0]["bb"], s_) for s_ in srcs):
+                continue
+            cps = copies_of(i, body)
+            guard = None
+            for g in sorted(body):
+                t = fn.term(g)
+                if t["k"] != "switch" or t.get("discr_ty") != "bool" or t["discr"].get("k") not in ("copy", "move") or t["discr"]["p"]["pj"]:
+                    continue
+                dd = fn.single_def(t["discr"]["p"]["l"])
+                if not (dd and dd["kind"] == "assign" and dd["stmt"]["rv"]["k"] == "binop" and dd["stmt"]["rv"]["op"] == "Lt"):
+                    continue
+                a = dd["stmt"]["rv"]["a"]
+                if a.get("k") not in ("copy", "move") or a["p"]["pj"] or a["p"]["l"] not in cps:
+                    continue
+                false_t = [tb for v_, tb in t["targets"] if v_ == 0]
+                if not false_t or false_t[0] in body or t["otherwise"] not in body:
+                    continue
+                if all(fn.dominates(g, x) for x in body if x != h and not fn.dominates(x, g)):
+                    guard = g
+                    break
+            if guard is None:
+                continue
+            for bb in body:
+                t = fn.term(bb)
+                if t["k"] != "assert" or t.get("msg") != "Overflow" or not fn.dominates(guard, bb):
+                    continue
+                for st in fn.blocks[bb]["stmts"]:
+                    if st["k"] == "assign" and st["rv"]["k"] == "binop":
+                        rvb = st["rv"]
+                        a, b = rvb["a"], rvb["b"]
+                        if a.get("k") in ("copy", "move") and not a["p"]["pj"] and a["p"]["l"] in cps:
+                            if rvb["op"] == "AddWithOverflow" and cval(b) == 1 and bb == inc_bb:
+                                out.add(bb)
+                            if rvb["op"] == "SubWithOverflow" and cval(b) is not None and cval(b) <= c0:
+                                out.add(bb)
+    return out
+
+
 def sites(fn):
     out = []
     guarded = guarded_subtractions(fn.facts, fn) if hasattr(fn, "facts") and fn.facts is not None else set()
-    guarded = set(guarded) | index_loop_sites(fn) | bool_index_sites(fn) | const_arith_sites(fn)
+    guarded = set(guarded) | index_loop_sites(fn) | bool_index_sites(fn) | const_arith_sites(fn) | counter_arith_sites(fn)
     if hasattr(fn, "facts") and fn.facts is not None:
         guarded |= guarded_indexings(fn.facts, fn)
     for bb in sorted(fn.reachable()):
@@ -472,7 +558,18 @@ def analyze(ctx, want):
                     gk = (type_of_fn(name), kind)
                     if grp_actual[gk] <= grp_allowed[gk] and grp_allowed[gk] > 0:
                         ok = moved = True
+                swapped = False
+                if not ok and kind == "call:explicit":
+                    # `x.unwrap()` / `v[i]` written as `match x { Some(v) => v, None => unreachable!() }`: the explicit panic stands
+                    # where an access that presumes presence stood — what has to be justified is the same condition.  Explicit
+                    # sites may use the allowance the function's accesses leave unused.
+                    acc_allowed = sum(r[2] for r in TABLE if re.search(r[0], name) and merge_kind(r[1]) == "call:access")
+                    if n <= allowed + max(0, acc_allowed - c.get("call:access", 0)):
+                        ok = swapped = True
+                        rows = rows or [r for r in TABLE if re.search(r[0], name) and merge_kind(r[1]) == "call:access"]
                 why = rows[0][4] if rows else ""
+                if swapped:
+                    why = "explicit panic in place of an access that presumes presence (%d access site(s) justified, %d present): %s" % (acc_allowed, c.get("call:access", 0), why)
                 if moved:
                     why = "sites moved between methods of %s: %d site(s) of this kind in the type, %d justified in rules/panics.py" % (M.short_name(gk[0]), grp_actual[gk], grp_allowed[gk])
                 cls = rows[0][3] if rows else "unjustified"
